@@ -27,7 +27,7 @@ Why(R) ==
        ELSE IF R.v # 9 /\ R.out # "unsafe" /\ (\A a \in AccSet(R) : R.v > a) THEN "verdict above the accepted severity but the error is not the unsafe-file error"
        ELSE IF R.v # 9 /\ R.out = "unsafe" /\ R.info # R.v THEN "unsafe-file error carries another verdict"
        ELSE IF R.v # 9 /\ R.arm \in {"loader", "loader_json"} /\ R.v <= R.t THEN "raised at or below the accepted severity"
-       ELSE IF R.v # 9 /\ R.arm \in {"hook", "context"} /\ R.v = 0 THEN "raised on a LIKELY_SAFE pickle"
+       ELSE IF R.v # 9 /\ R.arm \in {"hook", "context", "hook_after_context"} /\ R.v = 0 THEN "raised on a LIKELY_SAFE pickle"
        ELSE "ok"
 
 Judge == /\ ~done /\ done' = TRUE /\ UNCHANGED tid /\ verdict' = Why(T[tid])
